@@ -5,6 +5,8 @@ use vstd::prelude::*;
 
 // ---- TRUSTED: the decoders as uninterpreted partial functions ----
 pub trait DeserializeOwned {}
+pub trait ServerContext {}
+pub struct Opaque<T> { pub _p: core::marker::PhantomData<T> }
 #[verifier::external_body]
 pub struct VariableSet { _p: u8 }
 /// crate::from_map::from_map on the routing variables
